@@ -1088,7 +1088,10 @@ class TypeBlocks(ContainerOperand):
                     if retain_key_order:
                         indices = (self._index[x] for x in key)
                     else:
-                        indices = (self._index[x] for x in sorted(key))
+                        # normalize negative positions so that ascending order is positional order
+                        size = self._shape[1]
+                        indices = (self._index[x] for x in sorted(
+                                x + size if x < 0 else x for x in key))
                 elif key is None: # get all
                     indices = self._index
                 else:
